@@ -117,6 +117,9 @@ class Tokenizer:
             if m.group(0)[1] not in '0123456789abcdefABCDEF':
                 return m.group(0)
             num = int(m.group(0)[1:], 16)
+            if num == 0x5C:
+                # stays an escaped backslash (a bare one would start an escape)
+                return '\\\\'
             if num <= sys.maxunicode:
                 return chr(num)
             else:
